@@ -434,6 +434,10 @@ func c13Release(c *an.Ctx) {
 					if strings.Contains(a.L, ".owners)") && a.Op == "==" && a.R == "0" {
 						ok = true
 					}
+					// a length is never negative: `!(len(owners) > 0)` says the same
+					if strings.HasPrefix(a.L, "len(") && strings.Contains(a.L, ".owners)") && (a.Op == "<=" && a.R == "0" || a.Op == "<" && a.R == "1") {
+						ok = true
+					}
 				}
 				c.Check(ok, "R3", "Release deletes an entry only when no owner is left", in.Pos(), "cache.Delete under len(e.owners) == 0", "Release deletes cache entries that other WAFs still own", facts.Strings()...)
 				// under lock: a Lock call dominates and the matching Unlock does not precede
